@@ -1101,3 +1101,87 @@ def version_history_replay(dem, gop, last_pev=100.0, turnout=None, weights=None,
         est = res["est_margin"].to_numpy(dtype=float)
         out["ok"] = bool(et == {"none"} and np.isfinite(est).all() and (np.abs(est) <= 1 + 1e-12).all())
     return out
+
+
+def mutable_defaults_replay():
+    """REAL ModelClient.get_estimates called twice WITHOUT the optional container arguments (so the shared default
+    objects are used): the default objects of every function of the client module must be unchanged afterwards, and
+    the second run must return what the first returned"""
+    import copy
+    import inspect
+
+    import elexmodel.client as cl
+
+    def defaults():
+        out = {}
+        for cname, c in inspect.getmembers(cl, inspect.isclass):
+            if c.__module__ != cl.__name__:
+                continue
+            for fname, f in inspect.getmembers(c, inspect.isfunction):
+                for p in inspect.signature(f).parameters.values():
+                    if isinstance(p.default, (dict, list, set)):
+                        out[f"{cname}.{fname}({p.name})"] = p.default
+        return out
+
+    before = {k: copy.deepcopy(v) for k, v in defaults().items()}
+    base = synthetic(40, seed=1)
+    cur = feed(base, [100] * 30 + [30] * 10)
+    out = {"exc": None}
+    try:
+        res = []
+        for _ in range(2):
+            c = cl.ModelClient()
+            with warnings.catch_warnings():
+                warnings.simplefilter("ignore")
+                r = c.get_estimates(cur.copy(), "2024-11-05_USA_G", "S", ["turnout"], [0.9], 100, "county", raw_config=config("2024-11-05_USA_G", "S", sorted(set(base.postal_code)), "county"), preprocessed_data=base.copy(), pi_method="nonparametric", aggregates=["postal_code", "unit"])
+            res.append(r)
+        after = defaults()
+        changed = {k: repr(after[k])[:120] for k in before if after[k] != before[k]}
+        out["changed_defaults"] = changed
+        out["same_results"] = all(res[0][k].equals(res[1][k]) for k in res[0])
+        out["ok"] = bool(not changed and out["same_results"])
+    except Exception as e:  # noqa
+        out["exc"] = f"{type(e).__name__}: {e}"
+        out["ok"] = False
+    return out
+
+
+def results_saved_before_gate_replay():
+    """REAL ModelClient.get_estimates in a non-local environment (module constant patched) with save_output=['results'],
+    S3 writes recorded by a fake put, and TOO FEW reporting units: the dedicated error must be raised AND the live
+    results must already have been written (results first, the gate afterwards)"""
+    import elexmodel.client as cl
+    import elexmodel.handlers.data.CombinedData as cd
+    from elexmodel.handlers import s3
+
+    puts = []
+    saved = (cl.APP_ENV, s3.S3Util.put, s3.S3Util.__init__)
+
+    def fake_init(self, bucket_name, client=None):
+        self.bucket_name = bucket_name
+
+    def fake_put(self, filename, data, **kwargs):
+        puts.append(filename)
+
+    out = {"exc": None}
+    try:
+        cl.APP_ENV = "prod"
+        s3.S3Util.__init__ = fake_init
+        s3.S3Util.put = fake_put
+        base = synthetic(12, seed=3, states=("AA",))
+        cur = feed(base, [100] * 3 + [0] * 9)
+        raised = False
+        try:
+            run_client(cur, base, prediction_intervals=(0.9,), pi_method="nonparametric", save_output=["results"])
+        except cl.ModelNotEnoughSubunitsException:
+            raised = True
+        out["raised_dedicated"] = raised
+        out["puts"] = puts[:6]
+        out["results_written"] = any("/results/" in p for p in puts)
+        out["ok"] = bool(raised and out["results_written"])
+    except Exception as e:  # noqa
+        out["exc"] = f"{type(e).__name__}: {e}"
+        out["ok"] = False
+    finally:
+        cl.APP_ENV, s3.S3Util.put, s3.S3Util.__init__ = saved
+    return out
